@@ -80,7 +80,7 @@ impl Property for C04 {
         "Exhaustive over segments S = 365 bases ∪ every base+1 diacritic (model-applied diacritic; kept if asca parses it to the same bundle), each placed alone (`S`) and as the middle syllable of `pa.S.ta`, \
          × rule families: set (`[] > [±F]` for 26 features, `[] > [±lab|cor|dor|phr]`, `[] > [-place]`; `[+place]` and `[±root|manner|lar]` must be errors), match (`[±F] > [tone:7]`, `[±node] > [tone:7]`, tone as the match marker), \
          alpha (`[αF] > [αG]` and `[αF] > [-αG]` for all 26×26 pairs), node alphas (`[αN] > [αN]`, `[] > [αN] / _[αN]`). One case = (segment, context, family) = 10-62 rule applications; the result is compared structurally with a bit-level model \
-         (own representation: root/manner/laryngeal bytes + four optional sub-nodes). Both tiers enumerate the whole space; the thorough tier adds every 4th base+2-diacritic text. Non-trivial: the model predicts a change of the word for at least one rule of the case.".into()
+         (own representation: root/manner/laryngeal bytes + four optional sub-nodes; in addition the place node of every result segment must be absent exactly when all four sub-nodes are). Both tiers enumerate the whole space; the thorough tier adds every 4th base+2-diacritic text. Non-trivial: the model predicts a change of the word for at least one rule of the case.".into()
     }
     fn exhaustive(&self, _t: Tier) -> bool { true }
     fn assumptions(&self) -> Vec<String> { vec!["conversion asca::Segment -> model uses the public fields and get_place_sub_nodes(); C18 checks those accessors against the raw bits".into(), "feature -> (node, bit) table typed from the manual's feature chart and the Segment doc comment".into()] }
@@ -128,6 +128,10 @@ impl Property for C04 {
                 (Ok(Ok(g)), None) => return Outcome::fail(sig, json!({"rule": rule, "word": text, "expected": "an error", "got": MWord::from_asca(&g).show()})),
                 (Ok(Err(e)), Some(x)) => return Outcome::fail(format!("{sig}|unexpected error"), json!({"rule": rule, "word": text, "expected": x.show(), "got_error": format!("{e:?}")})),
                 (Ok(Ok(g)), Some(x)) => {
+                    // "[-node] removes the node": once the last sub-node is gone the place node itself must be absent, or `[-place]` stops matching
+                    if g.syllables.iter().flat_map(|sy| sy.segments.iter()).any(|sg| sg.is_place_none() != !MSeg::from_asca(sg).has_place()) {
+                        return Outcome::fail(format!("{sig}|place node present without any sub-node"), json!({"rule": rule, "word": text}))
+                    }
                     let g = MWord::from_asca(&g);
                     if g != x { return Outcome::fail(sig, json!({"rule": rule, "word": text, "expected": x.show(), "got": g.show(), "expected_json": x.to_json(), "got_json": g.to_json()})) }
                     if x != mw { changed = true; }
